@@ -37,6 +37,8 @@ type Solver struct {
 	Log     io.Writer // optional transcript
 	LastErr string
 	lastHadExtra bool
+	lastModel Model
+	AllVars func() []*Term
 }
 
 func NewSolver(kind string, timeoutMs int) (*Solver, error) {
@@ -47,7 +49,12 @@ func NewSolver(kind string, timeoutMs int) (*Solver, error) {
 	return s, nil
 }
 
+func (s *Solver) oneshot() bool { return strings.HasSuffix(s.Kind, "-oneshot") }
+
 func (s *Solver) start() error {
+	if s.oneshot() {
+		return nil
+	}
 	var cmd *exec.Cmd
 	switch s.Kind {
 	case "z3":
@@ -108,6 +115,9 @@ func (s *Solver) Restart() error {
 }
 
 func (s *Solver) send(line string) {
+	if s.cmd == nil {
+		return
+	}
 	if s.Log != nil {
 		fmt.Fprintln(s.Log, line)
 	}
@@ -117,7 +127,7 @@ func (s *Solver) send(line string) {
 
 // emit makes sure t and all its sub-terms are defined in the solver.
 func (s *Solver) emit(t *Term) {
-	if t.Op == OpConst || s.emitted[t.ID] {
+	if t.Op == OpConst || s.emitted[t.ID] || s.oneshot() {
 		return
 	}
 	// iterative post-order
@@ -170,6 +180,10 @@ func (s *Solver) Level(i int) *Term { return s.levels[i] }
 
 // Push asserts t at a new level.
 func (s *Solver) Push(t *Term) {
+	if s.oneshot() {
+		s.levels = append(s.levels, t)
+		return
+	}
 	s.emit(t)
 	s.send("(push 1)")
 	s.send("(assert " + Ref(t) + ")")
@@ -192,8 +206,18 @@ func (s *Solver) readLine() (string, error) {
 // Check checks satisfiability of the stack plus the extra assumptions.
 func (s *Solver) Check(extra ...*Term) Result {
 	t0 := time.Now()
-	defer func() { s.Time += time.Since(t0) }()
+	defer func() {
+		d := time.Since(t0)
+		s.Time += d
+		if dir := os.Getenv("GOSYMX_SLOWDIR"); dir != "" && d > 500*time.Millisecond {
+			ts := append(append([]*Term{}, s.levels...), extra...)
+			os.WriteFile(fmt.Sprintf("%s/slow-%d-%d-%dms.smt2", dir, os.Getpid(), s.Queries, d.Milliseconds()), []byte(Script(ts, "")), 0o644)
+		}
+	}()
 	s.Queries++
+	if s.oneshot() {
+		return s.checkOneShot(extra)
+	}
 	for _, e := range extra {
 		s.emit(e)
 	}
@@ -258,7 +282,7 @@ var _ = strconv.Itoa
 // lastHadExtra: after a Sat Check with extras the extra scope stays open so
 // that Model() can be read; Done() closes it.
 func (s *Solver) Done() {
-	if s.lastHadExtra {
+	if s.lastHadExtra && !s.oneshot() {
 		s.send("(pop 1)")
 		s.lastHadExtra = false
 	}
@@ -266,6 +290,9 @@ func (s *Solver) Done() {
 
 // Model reads values of the given variables (after a Sat Check, before Done).
 func (s *Solver) Model(vars []*Term) (Model, error) {
+	if s.oneshot() {
+		return s.lastModel, nil
+	}
 	m := Model{}
 	var names []*Term
 	for _, v := range vars {
@@ -627,3 +654,108 @@ func Portfolio(ts []*Term, vars []*Term, timeoutS int) (Result, Model, string) {
 
 // Levels returns the asserted terms of the stack.
 func (s *Solver) Levels() []*Term { return s.levels }
+
+func (s *Solver) checkOneShot(extra []*Term) Result {
+	ts := append(append([]*Term{}, s.levels...), extra...)
+	script := Script(ts, "")
+	var vars []*Term
+	if s.AllVars != nil {
+		vars = s.AllVars()
+	}
+	var gv strings.Builder
+	n := 0
+	gv.WriteString("(get-value (")
+	for _, v := range vars {
+		if strings.Contains(script, "(declare-const |"+v.Name+"| ") {
+			gv.WriteString(Ref(v))
+			gv.WriteByte(' ')
+			n++
+		}
+	}
+	gv.WriteString("))\n")
+	var cmd *exec.Cmd
+	pre := ""
+	switch s.Kind {
+	case "cvc5-int-oneshot":
+		cmd = exec.Command("cvc5", "--lang", "smt2", "--produce-models", "--solve-bv-as-int=sum", fmt.Sprintf("--tlimit=%d", s.TimeoutMs))
+		pre = "(set-logic ALL)\n"
+	case "cvc5-oneshot":
+		cmd = exec.Command("cvc5", "--lang", "smt2", "--produce-models", fmt.Sprintf("--tlimit=%d", s.TimeoutMs))
+		pre = "(set-logic ALL)\n"
+	case "z3-new-oneshot":
+		cmd = exec.Command("z3-new", "-in", "-smt2", fmt.Sprintf("-t:%d", s.TimeoutMs))
+		pre = "(set-option :produce-models true)\n"
+	default:
+		cmd = exec.Command("/usr/bin/z3", "-in", "-smt2", fmt.Sprintf("-t:%d", s.TimeoutMs))
+		pre = "(set-option :produce-models true)\n"
+	}
+	input := pre + script
+	if n > 0 {
+		input += gv.String()
+	}
+	cmd.Stdin = strings.NewReader(input)
+	out, _ := cmd.Output()
+	text := strings.TrimSpace(string(out))
+	lines := strings.SplitN(text, "\n", 2)
+	res := Unknown
+	switch strings.TrimSpace(lines[0]) {
+	case "sat":
+		res = Sat
+		s.NSat++
+		m := Model{}
+		if n > 0 && len(lines) > 1 && !strings.Contains(lines[1], "(error") {
+			toks := tokenize(lines[1])
+			pos := 0
+			var parse func() interface{}
+			parse = func() interface{} {
+				if pos >= len(toks) {
+					return nil
+				}
+				t := toks[pos]
+				pos++
+				if t == "(" {
+					var l []interface{}
+					for pos < len(toks) && toks[pos] != ")" {
+						l = append(l, parse())
+					}
+					pos++
+					return l
+				}
+				return t
+			}
+			top, _ := parse().([]interface{})
+			byName := map[string]*Term{}
+			for _, v := range vars {
+				byName[v.Name] = v
+			}
+			for _, e := range top {
+				pair, ok := e.([]interface{})
+				if !ok || len(pair) != 2 {
+					continue
+				}
+				nm, _ := pair[0].(string)
+				nm = strings.Trim(nm, "|")
+				if v, ok := byName[nm]; ok {
+					if val, ok := parseValue(pair[1], v.Sort); ok {
+						m[nm] = val
+					}
+				}
+			}
+		}
+		s.lastModel = m
+	case "unsat":
+		if strings.Contains(text, "(error") && !strings.Contains(text, "model") && !strings.Contains(text, "get-value") && !strings.Contains(text, "Cannot get value") {
+			s.LastErr = text
+			s.NUnknown++
+			return Unknown
+		}
+		res = Unsat
+		s.NUnsat++
+	default:
+		if strings.Contains(text, "(error") {
+			s.LastErr = text
+		}
+		s.NUnknown++
+	}
+	return res
+}
